@@ -41,7 +41,7 @@ def pyclass(v):
     if isinstance(v, (int, np.integer)):
         return "int"
     if isinstance(v, (float, np.floating)):
-        return "nan" if v != v else "float"
+        return "nan" if (v != v or v in (float("inf"), float("-inf"))) else "float"   # JSON has no spelling for any non-finite number
     return "str"
 
 
@@ -94,6 +94,13 @@ def objects(rng, thorough):
         las.append_curve("OBJF", np.array([1.5, np.nan, 3.5], dtype=object))
         return las
     yield "object-curves", objcurve
+    def nonfinite():
+        las = base(n=4, nan=True)
+        las.append_curve("BIG", np.array([1.0, np.inf, -np.inf, 1.7976931348623157e308]))
+        las.params.append(HeaderItem("INFV", "", float("inf"), "non-finite value"))
+        return las
+    yield "non-finite", nonfinite
+    yield "read-overflow", lambda: lasio.read("~V\nVERS. 2.0:\nWRAP. NO:\n~W\nNULL. -999.25:\n~C\nDEPT.M:\nGR.:\n~A\n1 1.0E+309\n2 -1.0E+309\n3 5\n")
     yield "empty", lambda: lasio.LASFile()
     yield "read-sample", lambda: lasio.read(os.path.join(core.REPO, "tests", "examples", "sample.las"))
     yield "read-wrapped", lambda: lasio.read(os.path.join(core.REPO, "tests", "examples", "1.2", "sample_wrapped.las"))
@@ -155,7 +162,7 @@ def json_event(name, las):
             ok = False
             continue
         for x, y in zip(c.data, col):
-            if isinstance(x, (float, np.floating)) and x != x:
+            if isinstance(x, (float, np.floating)) and (x != x or abs(x) == float("inf")):
                 ok = ok and y is None
             else:
                 ok = ok and y is not None and same(x, y)
@@ -360,6 +367,8 @@ def run(ctx):
             meta.append({"object": name, "export": "df"})
             ctx.evaluations += 1
             ctx.case(["df", name])
+        if name in ("non-finite", "read-overflow"):
+            continue        # the xlsx number format has no infinities (openpyxl stores an error cell) - outside the statement
         events.append(xlsx_event(name, mk(), os.path.join(work, "out.xlsx")))
         meta.append({"object": name, "export": "xlsx"})
         ctx.evaluations += 1
@@ -374,6 +383,8 @@ def run(ctx):
     ctx.sample({"unit": events[5]})
     ctx.sample({"csv": [e for e in events if e["op"] == "csv"][3]})
     ctx.assumptions += [
+        "infinite samples and header values (only reachable through the API or an overflowing literal) are exported to JSON (null, "
+        "the only strict spelling), CSV and df(); they are not exported to Excel, whose number format cannot hold them",
         "to_csv options restricted to the documented ones: mnemonics/units True, False or lists of the right length; units_loc in "
         "{'line', '[]', '()'}; csv kwargs delimiter / lineterminator / quoting",
         "index units: members of the recognised sets in any case and clearly foreign units (no substrings of recognised names)",
